@@ -186,19 +186,19 @@ pub fn history(cx: &mut Ctx, rng: &mut Rng, max_steps: usize) {
         let res = cx.op(&op);
         let p: Vec<&str> = res.split(' ').collect();
         if op.starts_with("read100") && p[0] == "count" {
-            soff += p[1].parse::<usize>().unwrap();
+            soff += p[1].parse::<usize>().unwrap_or(0);
         }
         if op.starts_with("resp") && p[0] == "resp" {
-            soff += p[1].parse::<usize>().unwrap();
+            soff += p[1].parse::<usize>().unwrap_or(0);
             if p.len() > 2 && p[2] != "none" {
                 can_resp = true;
             }
         }
         if op.starts_with("bread") && p[0] == "bytes" {
-            soff += p[1].parse::<usize>().unwrap();
+            soff += p[1].parse::<usize>().unwrap_or(0);
         }
         if op.starts_with("bwrite") && p[0] == "bytes" {
-            boff += p[1].parse::<usize>().unwrap();
+            boff += p[1].parse::<usize>().unwrap_or(0);
         }
         if op.starts_with("follow ") && p[0] == "flow" {
             stream = gen_stream(rng);
@@ -251,9 +251,9 @@ pub fn c09(cx: &mut Ctx) {
                     } else { op.to_string() };
                     let res = cx.op(&text);
                     let p: Vec<&str> = res.split(' ').collect();
-                    if text.starts_with("read100") && p[0] == "count" { soff += p[1].parse::<usize>().unwrap(); }
-                    if text.starts_with("resp") && p[0] == "resp" { soff += p[1].parse::<usize>().unwrap(); }
-                    if text.starts_with("bread") && p[0] == "bytes" { soff += p[1].parse::<usize>().unwrap(); }
+                    if text.starts_with("read100") && p[0] == "count" { soff += p[1].parse::<usize>().unwrap_or(0); }
+                    if text.starts_with("resp") && p[0] == "resp" { soff += p[1].parse::<usize>().unwrap_or(0); }
+                    if text.starts_with("bread") && p[0] == "bytes" { soff += p[1].parse::<usize>().unwrap_or(0); }
                 }
             }
         }
@@ -274,7 +274,7 @@ fn c10_exchange(cx: &mut Ctx, req: &str, scenario: usize, stream: &[u8]) {
             2 | 3 | 4 => {
                 // the server answers while we wait: a 100, or the final response
                 let res = cx.op(&format!("read100 {}", hx(stream)));
-                if let Some(n) = res.strip_prefix("count ") { soff = n.parse().unwrap(); }
+                if let Some(n) = res.strip_prefix("count ") { soff = n.parse().unwrap_or(0); }
             }
             _ => {}
         }
@@ -290,14 +290,14 @@ fn c10_exchange(cx: &mut Ctx, req: &str, scenario: usize, stream: &[u8]) {
                 let res = cx.op(&format!("resp {}", hx(&stream[soff.min(stream.len())..])));
                 let p: Vec<&str> = res.split(' ').collect();
                 if p[0] != "resp" { return; }
-                soff += p[1].parse::<usize>().unwrap();
+                soff += p[1].parse::<usize>().unwrap_or(0);
                 if p[2] != "none" { cx.op("proceed"); } else if p[1] == "0" { return; }
             }
             "recvBody" => {
                 cx.op("mode");
                 let res = cx.op(&format!("bread {} 1000", hx(&stream[soff.min(stream.len())..])));
                 let p: Vec<&str> = res.split(' ').collect();
-                if p[0] == "bytes" { soff += p[1].parse::<usize>().unwrap(); }
+                if p[0] == "bytes" { soff += p[1].parse::<usize>().unwrap_or(0); }
                 cx.op("proceed");
             }
             "redirect" => { cx.op("close?"); cx.op("reason"); cx.op("proceed"); }
@@ -444,7 +444,7 @@ pub fn c12(cx: &mut Ctx) {
                                 let res = cx.op(&format!("bread {} {}", hx(&w[off..upto]), cap));
                                 let p: Vec<&str> = res.split(' ').collect();
                                 if p[0] != "bytes" { break; }
-                                let i: usize = p[1].parse().unwrap();
+                                let i: usize = p[1].parse().unwrap_or(0);
                                 off += i;
                                 if i == 0 && p[2] == "-" { break; }
                             }
@@ -488,6 +488,35 @@ pub fn c12(cx: &mut Ctx) {
     cx.op("proceed");
     for _ in 0..6 { cx.op(&format!("resp {}", hx(st))); }
     cx.op("proceed"); cx.op("mode"); cx.op(&format!("bread {} 100", hx(b"body"))); cx.op("proceed"); cx.op("close?"); cx.op("reason");
+    // (6) chunk sizes at and around the machine word: the size line and the first data bytes in one window
+    let sizes: [&[u8]; 10] = [b"ffffffffffffffff", b"fffffffffffffffe", b"FFFFFFFFFFFFFFF0", b"7fffffffffffffff", b"8000000000000000",
+        b"ffffffffffffffff0", b"10000000000000000", b"+ffffffffffffffff", b"00000000000000000003", b"fffffffffffffff;x=1"];
+    for size in sizes {
+        for stop in [false, true] {
+            cx.case("wordsize");
+            for cap in [1usize, 7, 100] {
+                for cut in [0usize, 3] {
+                    if !super::bodyr::to_recv_body(cx, "GET", heads[0]) { continue; }
+                    if stop { cx.op("stopb true"); }
+                    let mut w = size.to_vec(); w.extend_from_slice(b"\r\nabcdefgh\r\n0\r\n\r\n");
+                    let mut off = 0;
+                    for upto in [size.len() + 2 + cut, w.len()] {
+                        for _ in 0..3 {
+                            if off > upto { break; }
+                            let res = cx.op(&format!("bread {} {}", hx(&w[off..upto]), cap));
+                            let p: Vec<&str> = res.split(' ').collect();
+                            if p[0] != "bytes" { break; }
+                            let i: usize = p[1].parse().unwrap_or(0);
+                            off += i;
+                            if i == 0 && p[2] == "-" { break; }
+                        }
+                    }
+                    cx.op("canproceed");
+                    cx.op("proceed");
+                }
+            }
+        }
+    }
     // (5) a header name longer than 65535 bytes (D9)
     cx.case("longname");
     super::to_recv_response(cx, "GET", "HTTP/1.1");
@@ -527,9 +556,9 @@ fn drive_with_stream(cx: &mut Ctx, rng: &mut Rng, stream: &[u8]) {
         };
         let res = cx.op(&op);
         let p: Vec<&str> = res.split(' ').collect();
-        if op.starts_with("read100") && p[0] == "count" { soff += p[1].parse::<usize>().unwrap(); }
-        if op.starts_with("resp") && p[0] == "resp" { soff += p[1].parse::<usize>().unwrap(); }
-        if op.starts_with("bread") && p[0] == "bytes" { soff += p[1].parse::<usize>().unwrap(); }
+        if op.starts_with("read100") && p[0] == "count" { soff += p[1].parse::<usize>().unwrap_or(0); }
+        if op.starts_with("resp") && p[0] == "resp" { soff += p[1].parse::<usize>().unwrap_or(0); }
+        if op.starts_with("bread") && p[0] == "bytes" { soff += p[1].parse::<usize>().unwrap_or(0); }
         if op.starts_with("follow") && p[0] == "flow" { soff = 0; }
     }
 }
